@@ -132,6 +132,7 @@ func run(c *core.Ctx) {
 		if alloc > maxAlloc {
 			maxAlloc = alloc
 		}
+		c.Add("traces_validated_against_impl", 1)
 	}
 	c.Set("alloc_probes", len(probes))
 	c.Set("alloc_probe_max_bytes_allocated_by_a_GetFile_announcing_2^62_or_2^32_bytes", maxAlloc)
